@@ -80,7 +80,8 @@ def run(tier, seed):
                 'expressions, nesting) rendered as text, plus mutants (token deleted / inserted / doubled / swapped / appended, truncated), lexed and parsed by the real '
                 'Lexer + AstBuilder: outcome (accepted tree / parser exception / foreign exception) vs the Lean interpreter run on the grammar table of this run; '
                 'on the real code: an accepted tree\'s leaves are exactly the lexed tokens; whitespace (space, tab, newline; leading, between, trailing) and the choice '
-                'of , or ; do not change the outcome nor the value; Lexer.parse and <class>.get vs the Lean lexer on formula texts, near-miss references, literals and '
+                'of , or ; do not change the outcome nor the value; a blank inside a number / name / address / two-character operator is never ignored (=1 2 is not =12); a call with one argument more than Excel defines for the function is rejected; changing a numeric literal '
+                'of an accepted formula changes the generated class (nothing is ignored); Lexer.parse and <class>.get vs the Lean lexer on formula texts, near-miss references, literals and '
                 'token soups; text -> tree through the Lean lexer + parser vs the real front end. distinct = distinct formula texts')
     chk.assumptions += ['the lexer model (Model/Lex.lean) has hand-written scanners for the five complex regexes (matrix, range, cell, pattern, literal), pinned to their regex sources by '
                         'pinned_sources and compared with <class>.get / Lexer.parse on generated texts; \\w \\d \\s are modelled on ASCII + Cyrillic letters (checked per character '
@@ -131,6 +132,9 @@ def run(tier, seed):
     chk.judge('text-to-tree', front, sample_cap=4)
     lexmodel.run_lexer_streams(chk, tier, [t for t, _ in texts[:600 if tier == 'quick' else 6000]])
     laws(chk, tier)
+    arity_law(chk)
+    glue_law(chk, [t for t, valid in texts if valid], tier)
+    sensitivity_law(chk, [t for t, valid in texts if valid], tier)
     return chk.finish()
 
 
@@ -164,6 +168,106 @@ def laws(chk, tier):
             if o != outs[0]:
                 chk.violation({'why': 'whitespace between tokens or the choice of , / ; changes the result', 'formula': f, 'variant': v,
                                'impl': outs[0], 'impl_variant': o, 'stream': 'ws-sep-law'})
+
+
+# a call with every argument the function has (in Excel and in the runtime helper it is translated to); one more argument could only be ignored, so it
+# must never be accepted.  COUNTBLANK is not listed: the implementation counts over all its arguments (an extension that ignores nothing).
+MAXIMAL_CALLS = ['ADDRESS(1,2,1,TRUE,"S")', 'COLUMN(A1)', 'DAY(A1)', 'MONTH(A1)', 'YEAR(A1)', 'DATE(2024,1,2)',
+                 'DATEDIF(A1,A2,"D")', 'EDATE(A1,1)', 'EOMONTH(A1,1)', 'IF(A1>1,2,3)', 'IFERROR(A1,2)', 'INDEX(A1:B2,1,1,1)', 'LEFT("abc",2)', 'RIGHT("abc",2)',
+                 'MID("abc",1,2)', 'MATCH(1,A1:A2,0)', 'XMATCH(1,A1:A2,0,1)', 'NETWORKDAYS(A1,A2,A1:A2)', 'ROUND(1.5,1)', 'ROUNDUP(1.5,1)',
+                 'ROUNDDOWN(1.5,1)', 'SEARCH("a","abc",1)', 'SUMIF(A1:A2,">1",B1:B2)', 'TODAY()', 'VLOOKUP(1,A1:B2,2,FALSE)', 'TEXT(1,"0")', 'VALUE("1")']
+EXTRA_ARGS = ['1', '"x"', 'A1', 'A1:B2', 'TRUE', '1+1', '99,1', '1,1,1']
+
+
+def arity_law(chk):
+    """no supported function is accepted with more arguments than Excel defines for it (the extra ones could only be dropped)"""
+    for call in MAXIMAL_CALLS:
+        for extra in EXTRA_ARGS:
+            inner = call[:-1]
+            f = '=' + inner + ('' if inner.endswith('(') else ',') + extra + ')'
+            for wrap in (f, '=1+' + f[1:], '=IF(TRUE,' + f[1:] + ',0)'):
+                out, _, _ = real_parse(wrap)
+                chk.count('law:arity:' + out.split(' ')[0])
+                chk.seen(('arity', wrap))
+                if out.startswith('A '):
+                    chk.violation({'why': 'a function call with more arguments than the function has is accepted (the extra arguments can only be ignored)', 'formula': wrap,
+                                   'tree': out[:300], 'stream': 'arity-law'})
+
+
+def glue_law(chk, texts, tier):
+    """whitespace separates tokens: a blank put INSIDE a number, a name, a cell address or a two-character operator gives another text, which
+    is either rejected or translated to something else - never to the class of the original formula (=1 2 is not =12)"""
+    import re as _re
+    rng = chk.rng
+    want = 200 if tier == 'quick' else 3000
+    fixed = ['=12+3', '=SUM(1,2)', '=A1+B2', '=1<=2', '=1>=2', '=1<>2', '=2e3', '=1.5*2', '=IF(TRUE,10,20)', '=AB12', '=SUMIFS(A1:A2,B1:B2,">1")', '=ROUNDDOWN(12.345,1)']
+    done = 0
+    rows = lambda f: [('S', [[1, 2, None, None], [3, 4, None, None], [None, None, None, None], [None, None, None, f]])]
+    for text in fixed + texts:
+        if done >= want:
+            break
+        parts = split_texts(text)
+        cands = [i for i, p in enumerate(parts) if len(p) >= 2 and (_re.fullmatch(r'[A-Za-z]+|\d+|\$?[A-Z]+\$?\d+|<=|>=|<>|\d+\.\d+|\d+e-?\d+', p))]
+        if not cands:
+            continue
+        try:
+            base = realcode.translate(rows(''.join(parts)), entry=(0, 3, 3))
+        except Exception:
+            continue
+        done += 1
+        for i in rng.sample(cands, min(3, len(cands))):
+            p = parts[i]
+            k = rng.randrange(1, len(p))
+            ws = rng.choice([' ', ' ', '  ', '\t', '\n'])
+            variant = ''.join(parts[:i] + [p[:k] + ws + p[k:]] + parts[i + 1:])
+            try:
+                other = realcode.translate(rows(variant), entry=(0, 3, 3))
+            except Exception:
+                chk.count('law:glue:variant-rejected')
+                chk.seen(('glue', variant))
+                continue
+            chk.count('law:glue:variant-translated')
+            chk.seen(('glue', variant))
+            if other == base:
+                chk.violation({'why': 'whitespace inside a token is ignored: a text that is not the formula is translated as if it were', 'formula': ''.join(parts),
+                               'variant': variant, 'stream': 'glue-law'})
+
+
+def sensitivity_law(chk, texts, tier):
+    """nothing of an accepted formula is ignored: changing one numeric literal of the formula changes the generated class"""
+    import re as _re
+    rng = chk.rng
+    n = 0
+    want = 250 if tier == 'quick' else 4000
+    for text in texts:
+        if n >= want:
+            break
+        parts = split_texts(text)
+        if ''.join(parts) != ''.join(text.split()) and ''.join(parts) != text.replace(' ', ''):
+            pass
+        idx = [i for i, p in enumerate(parts) if _re.fullmatch(r'[1-9]\d{0,3}', p)]
+        if not idx:
+            continue
+        rows = lambda f: [('S', [[1, 2, None, None], [3, 4, None, None], [None, None, None, None], [None, None, None, f]])]
+        try:
+            base = realcode.translate(rows(text), entry=(0, 3, 3))
+        except Exception:
+            continue
+        n += 1
+        for i in rng.sample(idx, min(3, len(idx))):
+            mutated = list(parts)
+            mutated[i] = str(int(parts[i]) + 1)
+            f2 = ' '.join(mutated)
+            try:
+                other = realcode.translate(rows(f2), entry=(0, 3, 3))
+            except Exception:
+                chk.count('law:sensitivity:mutant-rejected')
+                continue
+            chk.count('law:sensitivity')
+            chk.seen(('sensitivity', text, i))
+            if other == base:
+                chk.violation({'why': 'a literal of an accepted formula does not reach the generated class: part of the formula is silently ignored', 'formula': text,
+                               'changed_token': parts[i], 'variant': f2, 'stream': 'sensitivity-law'})
 
 
 def split_texts(formula):
